@@ -136,4 +136,38 @@ func HarnessSelfTest() {
 	// integer conversions and shifts wrap like the machine
 	u := uint8(200 + n)
 	verifAssert("SELF.wrap", uint8(u+100) == uint8(44+n) && int8(u) < 0 && uint64(1)<<uint(60+n) != 0 && (uint32(1)<<31)<<uint(n) == 0)
+	// select: default when nothing is ready, a ready receive, a send into free buffer space, default when full
+	{
+		ch := make(chan int, 1)
+		got := -1
+		select {
+		case v := <-ch:
+			got = v
+		default:
+			got = -2
+		}
+		ok1 := got == -2
+		ch <- 7
+		select {
+		case v := <-ch:
+			got = v
+		default:
+			got = -2
+		}
+		ok2 := got == 7
+		sent := false
+		select {
+		case ch <- 9:
+			sent = true
+		default:
+		}
+		full := false
+		select {
+		case ch <- 10:
+		default:
+			full = true
+		}
+		last := <-ch
+		verifAssert("SELF.select", ok1 && ok2 && sent && full && last == 9)
+	}
 }
